@@ -601,6 +601,11 @@ class BuiltinsMixin:
         zi = z3.If(zi < 0, zi + n, zi)
         return SV(z3.SubString(z, zi, 1), "str")
 
+    def bytes_startswith(self, o, prefix):
+        from .filemodel import bz
+        f = z3.Function("bytes_startswith", BytesS, BytesS, z3.BoolSort())
+        return SV(f(bz(o), bz(prefix)), "bool")
+
     def bytes_getitem(self, o, i):
         from .filemodel import bslice, bz
         z = bz(o)
